@@ -64,6 +64,8 @@ prop("C02", ["prims.go", "c02a.go"],
      [run("core", "harnessC02a", ["common", "disjoint"], native="version", quick={"witness": 16, "bound": "host and plugin each with 2 versioned sets, versions arbitrary distinct ints; every map iteration order on both sides; PLUGIN_PROTOCOL_VERSIONS built as Start builds it"}),
       run("composed", "harnessC02b", ["common", "disjoint", "inherited-version-list"], files=["prims.go", "m_print.go", "c02b.go"],
           quick={"bound": "host's real Start composed with the plugin's real Serve in one run: 2 x 2 versioned sets, arbitrary distinct versions, every map order; the version list travels through the real environment construction, the real protocolVersion, the printed line and the real parser; the host's own environment is skipped, or is copied and carries a PLUGIN_PROTOCOL_VERSIONS inherited from the host's own launch (one arbitrary version)"}),
+      run("shared-config", "harnessSharedConfig", ["first-launch", "second-launch"], files=WORLD,
+          quick={"bound": "one *ClientConfig used for two launches (RunnerFunc; net/rpc or gRPC; AutoMTLS on or off): the first plugin serves only version 1 (offered through VersionedPlugins), the second only version 2 (offered through the legacy ProtocolVersion+Plugins pair); each launch: Start, Client, Dispense, call, Kill; checked per launch: negotiated version and plugin set, client-certificate variable, size of the host's trust pool"}),
       run("general", "harnessC02n", ["common", "fallback-lowest", "host-legacy", "plugin-legacy", "no-list", "damaged-list", "host-refuses"], files=["prims.go", "c02a.go", "c02c.go"], no_map_perm=True,
           quick={"skip": True},
           thorough={"params": {"n": 2}, "max_wall_s": 1500, "bound": "2 versioned sets per side plus optionally the legacy ProtocolVersion+Plugins pair on either side (so up to 3 x 3 versions, including version 0 and a legacy pair colliding with a versioned key), gRPC server factory configured or not, each plugin set net/rpc or gRPC, version list exact / missing / one entry damaged; insertion-order map iteration in this run"})],
@@ -110,8 +112,8 @@ EXIT = "os.Exit(n) ends every goroutine of the modelled plugin process and recor
 prop("C16", ["prims.go", "m_print.go", "c16.go"],
      [run("serve", "harnessC16", ["refused", "serving"],
           quick={"bound": "net/rpc plugin; configured cookie key empty or not; configured and environment cookie values arbitrary strings; PLUGIN_MULTIPLEX_GRPC unset / set but empty / \"true\" / other; PLUGIN_CLIENT_CERT set or not"}),
-      run("serve-world", "harnessC16world", ["refused", "serving", "no-cookie-key", "client-cert"], files=WORLD,
-          quick={"bound": "a plugin process on the world model: net/rpc or gRPC, plain or versioned plugin sets (with a version list in the environment), cookie key configured or empty, cookie variable unset or an arbitrary string, PLUGIN_MULTIPLEX_GRPC unset / empty / true / other, client certificate set or not; checked: exit status, stdout, listener before line, field count, version, protocol, announced address accepting"})],
+      run("serve-world", "harnessC16world", ["refused", "serving", "no-cookie-key", "client-cert", "damaged-version-entry"], files=WORLD,
+          quick={"bound": "a plugin process on the world model: net/rpc or gRPC, plain or versioned plugin sets (with a version list in the environment, well-formed or with entries that are not numbers), cookie key configured or empty, cookie variable unset or an arbitrary string, PLUGIN_MULTIPLEX_GRPC unset / empty / true / other, client certificate set or not; checked: exit status, stdout, listener before line, field count, version, protocol, announced address accepting"})],
      [GHOSTFS, EXIT, STR, "crypto (generateCert, X509KeyPair, CertPool) opaque; os.Pipe/os.Stdout swap modelled; signal.Notify no-op"],
      ["os.Getenv/Exit/Pipe", "net.Listen", "crypto/tls", "crypto/x509", "os/signal", "net/rpc server"],
      "what go-plugin's logger writes to stderr; TLSProvider failures",
@@ -123,7 +125,9 @@ prop("C17", ["prims.go", "c17.go"],
      [run("env", "harnessC17", ["automtls", "no-automtls"],
           quick={"bound": "one arbitrary host environment entry K=V (K, V arbitrary strings - the solver may choose K = PLUGIN_CLIENT_CERT etc.); AutoMTLS x GRPCBrokerMultiplex x SkipHostEnv; RunnerFunc capturing cmd.Env and cmd.Stdin"}),
       run("env-world", "harnessC17world", ["cmd-launch", "runner-launch", "socket-group", "skip-host-env", "cmd-env-preset"], files=WORLD,
-          quick={"bound": "composed with a real plugin: launch {exec.Cmd under the real CmdRunner, RunnerFunc} x protocol x AutoMTLS x multiplexing x UnixSocketConfig.Group set/unset x SkipHostEnv x one arbitrary host variable x (command launch) one arbitrary variable pre-set by the caller in cmd.Env; checked: cookie, port range, version list, client certificate, multiplexing flag, socket group, socket directory, stdin"})],
+          quick={"bound": "composed with a real plugin: launch {exec.Cmd under the real CmdRunner, RunnerFunc} x protocol x AutoMTLS x multiplexing x UnixSocketConfig.Group set/unset x SkipHostEnv x one arbitrary host variable x (command launch) one arbitrary variable pre-set by the caller in cmd.Env; checked: cookie, port range, version list, client certificate, multiplexing flag, socket group, socket directory, stdin"}),
+      run("shared-config", "harnessSharedConfig", ["first-launch", "second-launch"], files=WORLD,
+          quick={"bound": "one *ClientConfig used for two launches (RunnerFunc; net/rpc or gRPC; AutoMTLS on or off): the first plugin serves only version 1 (offered through VersionedPlugins), the second only version 2 (offered through the legacy ProtocolVersion+Plugins pair); each launch: Start, Client, Dispense, call, Kill; checked per launch: negotiated version and plugin set, client-certificate variable, size of the host's trust pool"})],
      [PROC, BUFIO, CTX, STR, "effective value of a variable in the child = last duplicate in cmd.Env (os/exec dedup rule)", "generateCert opaque"],
      ["os.Environ", "generateCert", "bufio", "context"],
      "more than one ambient host variable; cmd.Env pre-set by the caller; launch by exec.Cmd",
@@ -161,7 +165,9 @@ prop("C14", WORLD,
       run("mux-unsupported", "harnessC14oldPlugin", ["mux-unsupported"], quick={"bound": "a gRPC plugin announcing six fields, host requesting multiplexing; both launch methods"}),
       run("legacy-lines", "harnessC14legacyLines", ["legacy-accepted", "legacy-refused"], quick={"bound": "scripted plugins announcing 4-field, 5-field net/rpc and 5-field gRPC lines x three allowed lists x both launch methods"}),
       run("reattach-allowed", "harnessC15", ["reattached", "refused-protocol"], files=["prims.go", "c15.go"],
-          quick={"bound": "reattach half of the matrix: Reattach.Protocol in {\"\", netrpc, grpc} x AllowedProtocols in three lists x Test flag"})],
+          quick={"bound": "reattach half of the matrix: Reattach.Protocol in {\"\", netrpc, grpc} x AllowedProtocols in three lists x Test flag"}),
+      run("shared-config", "harnessSharedConfig", ["first-launch", "second-launch"], files=WORLD,
+          quick={"bound": "one *ClientConfig used for two launches (RunnerFunc; net/rpc or gRPC; AutoMTLS on or off): the first plugin serves only version 1 (offered through VersionedPlugins), the second only version 2 (offered through the legacy ProtocolVersion+Plugins pair); each launch: Start, Client, Dispense, call, Kill; checked per launch: negotiated version and plugin set, client-certificate variable, size of the host's trust pool"})],
      WORLD_ASSUME, WORLD_STUBS,
      "brokered callbacks and large responses inside the matrix run (brokers are C06-C08's subject); SecureConfig (C13); reattach to a composed plugin (C15)",
      text="Bounded symbolic model checking of the host's real Start/Client/Dispense/Ping/Kill composed with the plugin's real Serve in one run over the cross product of protocol, allowed list, transport security, launch method and multiplexing: compatible configurations work end to end, an announced protocol outside the allowed list is refused at start and the plugin terminated (also for legacy handshake lines and for reattach), a multiplexing request to a plugin that does not advertise it fails with the dedicated error, a transport-security mismatch surfaces as an error on first use, unknown plugin names are errors; never a hang or a panic.",
@@ -186,7 +192,9 @@ prop("C12", ["prims.go", "m_print.go", "c12.go"],
       run("intruders", "harnessC12", ["legit-works", "brokered-listeners", "intruders-refused"], files=WORLD,
           quick={"bound": "host x plugin composed under AutoMTLS, net/rpc and gRPC, both launch methods; listeners attacked: the plugin's main listener, a plugin-side and a host-side brokered gRPC listener; intruder credential classes: plaintext, TLS without certificate, TLS with a fresh self-signed certificate"}),
       run("impostor", "harnessC12impostor", ["impostor-refused"], files=WORLD,
-          quick={"bound": "a scripted net/rpc plugin that announces one certificate on its handshake line and serves with another"})],
+          quick={"bound": "a scripted net/rpc plugin that announces one certificate on its handshake line and serves with another"}),
+      run("shared-config", "harnessSharedConfig", ["first-launch", "second-launch"], files=WORLD,
+          quick={"bound": "one *ClientConfig used for two launches (RunnerFunc; net/rpc or gRPC; AutoMTLS on or off): the first plugin serves only version 1 (offered through VersionedPlugins), the second only version 2 (offered through the legacy ProtocolVersion+Plugins pair); each launch: Start, Client, Dispense, call, Kill; checked per launch: negotiated version and plugin set, client-certificate variable, size of the host's trust pool"})],
      [TLSC, "generateCert, X509KeyPair, AppendCertsFromPEM, base64 and x509 parsing preserve certificate identity"] + WORLD_ASSUME,
      WORLD_STUBS,
      "everything inside crypto/tls (the contract above is the trusted base); gRPC+mux brokered listeners; an intruder holding the right CA name with another key is the same class as 'another certificate' in the identity model",
@@ -199,8 +207,8 @@ YAMUX = "yamux model: a session is a pair of FIFO queues of streams; Open enqueu
 prop("C18", ["prims.go", "m_print.go", "c18.go"],
      [run("lifecycle", "harnessC18", ["mux", "no-mux"],
           quick={"bound": "plugin side, gRPC, multiplexing on/off, no brokered listeners: a whole life cycle Serve -> host connects -> controller Shutdown -> Serve returns, against the ghost file system"}),
-      run("world", "harnessC18world", ["dispensed", "host-serves", "plugin-serves", "two-plugin-servers", "host-listener-left-open", "rpc-callback", "closed-before-kill", "clean"], files=WORLD,
-          quick={"params": {"trace": 0}, "bound": "host x plugin composed, net/rpc, gRPC and gRPC+mux, both launch methods; history: dispense and call; optionally a brokered server on the host dialled and called by the plugin; optionally one or two brokered servers on the plugin, each dialled and called by the host; optionally a host-side brokered listener still open at Kill (custom runner); then either Kill, or the protocol client closed first, three seconds (the plugin exits and the exit is recorded) and then Kill; then six seconds"})],
+      run("world", "harnessC18world", ["dispensed", "host-serves", "plugin-serves", "two-plugin-servers", "host-listener-left-open", "rpc-callback", "closed-before-kill", "two-plugin-servers-one-id", "clean"], files=WORLD,
+          quick={"params": {"trace": 0}, "bound": "host x plugin composed, net/rpc, gRPC and gRPC+mux, both launch methods; history: dispense and call; optionally a brokered server on the host dialled and called by the plugin; optionally one or two brokered servers on the plugin (on two IDs, or one after the other on the same ID with the first still serving), each dialled and called by the host; optionally a host-side brokered listener still open at Kill (custom runner); then either Kill, or the protocol client closed first, three seconds (the plugin exits and the exit is recorded) and then Kill; then six seconds"})],
      [GHOSTFS, GRPCSEAM, YAMUX, EXIT] + WORLD_ASSUME,
      WORLD_STUBS,
      "histories with more than one brokered connection per direction; stdio traffic; goroutines inside gRPC and yamux (delegated)",
@@ -256,6 +264,9 @@ prop("C07", ["prims.go", "c07.go"],
           thorough={"max_reversals": 2, "max_wall_s": 1500, "bound": "as quick with <= 2 reversals"}),
       run("multi", "harnessC07multi", ["accept-first", "dial-first", "routed"], dpor=True,
           quick={"max_reversals": 1, "bound": "three IDs outstanding at once, two of them in the same direction (both accepted on the plugin and dialled from the host), all accepts before all dials or the reverse, symbolic distinct IDs and gap; <= 1 reversal"}),
+      run("same-instant", "harnessC07same", ["host-accepts", "plugin-accepts", "routed"], dpor=True,
+          quick={"max_reversals": 2, "bound": "one symbolic ID accepted and dialled at the same instant (the connection info arrives while the Dial looks its pending entry up), plugin accepts / host dials or the reverse, real stream pumps; all schedules with <= 2 reversals"},
+          thorough={"max_reversals": 3, "max_wall_s": 1500, "bound": "as quick with <= 3 reversals"}),
       run("retry-after-timeout", "harnessC09grpc", ["history-done", "fresh-pair", "retry-of-timed-out-id"],
           quick={"params": {"as_c07": 1}, "bound": "C09's history run read as a routing claim: <= 2 dials nobody accepts (they time out), optionally an accept nobody dials, then accept - symbolic gap <= 4 s - dial on a fresh ID or on the ID whose dial timed out; canonical schedule, symbolic clock"})],
      [GRPCSEAM, GHOSTFS, "broker stream = FIFO pair; Send copies the message"], ["grpc", "net.Listen", "generated broker stream"],
